@@ -198,7 +198,12 @@ impl<'p> Gen<'p> {
             }
             _ => {
                 let t = if self.r.chance(1, 2) { Ns::After(self.r.range(0, 1 << 33)) } else { Ns::Before(self.r.range(1, 1 << 33)) };
-                Ns::All(vec![Ns::Pk(self.kid()), t])
+                if self.r.chance(1, 3) {
+                    // a key or a time condition: spendable without any signature once the time has come
+                    Ns::Any(vec![Ns::Pk(self.kid()), t])
+                } else {
+                    Ns::All(vec![Ns::Pk(self.kid()), t])
+                }
             }
         }
     }
@@ -333,6 +338,10 @@ impl<'p> Gen<'p> {
         } else {
             keys
         };
+        // a script that its time conditions alone satisfy: the wallet may truthfully declare that nobody signs for it
+        let keyless = matches!(&self.w.scripts[s as usize], ScriptSpec::Native(ns) if ns.keyless());
+        let chosen = if keyless && self.r.chance(1, 2) { vec![] } else { chosen };
+        let subset = subset || chosen.is_empty();
         let signers = match how {
             ScriptUse::Ref(_) => Some(chosen),
             ScriptUse::Witness => {
